@@ -8,6 +8,7 @@ vc: Compiler.generate_listing for symbol tables of 0..3 entries (symbolic names 
 rac: listing of multi-file programs with negative and > 16 bit constants on the real assembler (testing, separate)
 """
 import itertools
+import os
 import z3
 from contracts.common import *  # noqa
 from contracts import common
@@ -144,7 +145,22 @@ def unit_rac(eng):
     cases = [
         (["a = -5\nb = 300000\nl1: nop\nl0: nop\nz = 2\nzz = 1\nc2 = 7\nc1 = 7\n1$: nop\n"], None),
         (["x = 1\ny = 1\nstart: nop\n", "q = 7\nstart2: nop\n"], None),
+        # several negative constants and values wider than the six-digit field, next to smaller values with a larger leading digit
+        (["n1 = -1\nn2 = -2\nn100 = -100\nbig = 4000000\nmid = 200000\nhuge = 77777777777\nsmall = 7\nl: nop\n", "m1 = -1\nm7 = -7\nw = 1000000\nv = 777777\n"], None),
     ]
+    import random
+    rnd = random.Random(int(os.environ.get("VERIF_SEED", "0") or 0))
+    for _ in range(6):
+        srcs = []
+        for f in range(rnd.randrange(1, 4)):
+            lines = []
+            for k in range(rnd.randrange(2, 9)):
+                v = rnd.choice([rnd.randrange(-9, 10), rnd.randrange(-0o1000000, 0o1000000), rnd.randrange(-2 ** 40, 2 ** 40), rnd.choice([0o777777, 0o1000000, -0o777777, -0o1000000])])
+                lines.append("s%d_%d = %s%o" % (f, k, "-" if v < 0 else "", abs(v)))
+            lines.append("lab%d: nop" % f)
+            rnd.shuffle(lines)
+            srcs.append("\n".join(lines) + "\n")
+        cases.append((srcs, None))
     jobs = [{"kind": "asm", "sources": s, "names": ["/t/m%d.mac" % i for i in range(len(s))], "listing": True, "symbols": True} for s, _ in cases]
     res = driver.native(jobs, driver.tree_root())
     bad = []
